@@ -62,6 +62,17 @@ def fieldOk (fbod : Bool) (f : FieldInfo) (o : Option Py) (p : Py → Bool) : Bo
   | some x => p x || (!f.required && (f.fbod || fbod))
   | Option.none => !f.required
 
+/-- `dependent_required`: no field is absent while a field that requires it is present -/
+def depOk (infos : List FieldInfo) (kvs : List (String × Py)) : Bool := infos.all (fun f => !depViolated f kvs)
+
+def infosOf (fs : List (FieldInfo × Ty)) : List FieldInfo := fs.map (·.1)
+
+theorem depOk_of_noDeps {infos : List FieldInfo} (h : ∀ f ∈ infos, f.requiredBy = []) (kvs : List (String × Py)) :
+    depOk infos kvs = true := by
+  unfold depOk
+  exact List.all_eq_true.2 (fun f hf => by rw [depViolated_false (h f hf)]; rfl)
+
+
 /-- no key outside the declared aliases, unless additional properties are allowed -/
 def noUnexpected (ap : Bool) (aliases : List String) (kvs : List (String × Py)) : Bool :=
   ap || kvs.all (fun kv => aliases.contains kv.1)
@@ -86,7 +97,7 @@ def conforms (ap fbod : Bool) : Constraints → Ty → Py → Bool
   | _, .enum _ ms, d => d.hashable && ms.any (fun m => litMatches d m.2)
   | cs, .newtype _ t, d => conforms ap fbod cs t d
   | cs, .ann c t, d => conforms ap fbod (c.merge cs) t d
-  | cs, .obj _ fs, d => dictOk cs d (fun kvs => conformsF ap fbod fs kvs && noUnexpected ap (aliasesOf fs) kvs)
+  | cs, .obj _ fs, d => dictOk cs d (fun kvs => conformsF ap fbod fs kvs && noUnexpected ap (aliasesOf fs) kvs && depOk (infosOf fs) kvs)
 termination_by structural _ t => t
 /-- element-wise conformance of a fixed-length tuple -/
 def conformsZip (ap fbod : Bool) : List Ty → List Py → Bool
